@@ -162,7 +162,7 @@ def _pick_blocklen(r, form):
     return n
 
 
-KINDS = ['uleb', 'sleb', 'int', 'i24', 'cstr', 'cstr_fn', 'block', 'rue', 'ilen', 'form_string', 'ds_int', 'abbrev']
+KINDS = ['uleb', 'sleb', 'int', 'i24', 'cstr', 'cstr_fn', 'block', 'rue', 'ilen', 'form_string', 'ds_int', 'abbrev', 'cstr_enc']
 
 # the primitives as a DWARFStructs instance hands them out: attribute -> (width in bytes or 'fmt'/'addr', signed)
 DS_ATTRS = {'Dwarf_uint8': (1, False), 'Dwarf_uint16': (2, False), 'Dwarf_uint24': (3, False), 'Dwarf_uint32': (4, False),
@@ -234,6 +234,13 @@ def gen_entry(r, kind):
             specs.append([AB_ATS[at], AB_FORMS[form], val])
         enc += b'\0\0'
         return {'little': little}, enc, [AB_TAGS[tag], 'DW_CHILDREN_yes' if children else 'DW_CHILDREN_no', specs], 'ok'
+    if kind == 'cstr_enc':
+        # CString with an encoding (as InterpSegment uses it): text of 1-4 byte characters; the value is the decoded text, the
+        # bytes consumed are those of the encoding plus the terminator
+        n = min(_pick_strlen(r), 140)
+        alphabet = r.choice(['ab/._-0', 'a\u00e9\u00fc', 'a\u540d\u524d', 'a\U0001f600\u00e9\u540d', '\u00e9'])
+        text = ''.join(r.choice(alphabet) for _ in range(n))
+        return {}, text.encode('utf-8') + b'\0', {'text': text}, 'ok'
     if kind in ('cstr', 'cstr_fn', 'form_string'):
         n = _pick_strlen(r)
         if r.random() < 0.2:
@@ -335,6 +342,8 @@ def _jv(v):
 def _uv(v):
     if isinstance(v, dict) and 'hex' in v:
         return bytes.fromhex(v['hex'])
+    if isinstance(v, dict) and 'text' in v:
+        return v['text']
     return v
 
 
@@ -361,6 +370,8 @@ def _construct_for(kind, params):
         c = cu.ULInt24('') if params['little'] else cu.UBInt24('')
     elif kind == 'cstr':
         c = C.CString('')
+    elif kind == 'cstr_enc':
+        c = C.CString('', encoding='utf-8')
     elif kind == 'form_string':
         c = DWARFStructs(True, 32, 8, 4).Dwarf_dw_form['DW_FORM_string']
     elif kind == 'block':
@@ -413,7 +424,7 @@ def _label(e):
         return 'DWARFStructs(%s).%s' % ('little' if p['little'] else 'big', p['attr'])
     if k == 'abbrev':
         return 'Dwarf_abbrev_declaration'
-    return {'uleb': 'ULEB128', 'sleb': 'SLEB128', 'cstr': 'CString', 'cstr_fn': 'parse_cstring_from_stream',
+    return {'uleb': 'ULEB128', 'sleb': 'SLEB128', 'cstr': 'CString', 'cstr_enc': 'CString(encoding)', 'cstr_fn': 'parse_cstring_from_stream',
             'rue': 'RepeatUntilExcluding', 'ilen': 'initial_length', 'form_string': 'DW_FORM_string'}[k]
 
 
